@@ -66,6 +66,7 @@ type c07entry struct {
 }
 
 type c07call struct {
+	Slot     uint64     `json:"slot,omitempty"` // 0 = the default slot of the duty kind
 	Kind     string     `json:"kind"`
 	Internal bool       `json:"internal"`
 	Entries  []c07entry `json:"entries"`
@@ -81,6 +82,14 @@ func (c c07call) String() string {
 		in = "int"
 	}
 	return fmt.Sprintf("%s/%s{%s}", c.Kind, in, strings.Join(p, ","))
+}
+
+func (c c07call) duty() core.Duty {
+	d := c07duty(c.Kind)
+	if c.Slot != 0 {
+		d.Slot = c.Slot
+	}
+	return d
 }
 
 func (c c07call) set() core.ParSignedDataSet {
@@ -702,9 +711,9 @@ func c07scenario(name string, t int, pre []c07call, threads map[string]c07call, 
 		}
 		for _, c := range pre {
 			if c.Internal {
-				_ = d.in.db.StoreInternal(x.Ctx, c07duty(c.Kind), c.set())
+				_ = d.in.db.StoreInternal(x.Ctx, c.duty(), c.set())
 			} else {
-				_ = d.in.db.StoreExternal(x.Ctx, c07duty(c.Kind), c.set())
+				_ = d.in.db.StoreExternal(x.Ctx, c.duty(), c.set())
 			}
 		}
 		d.in.hook = func(what string) {
@@ -717,9 +726,9 @@ func c07scenario(name string, t int, pre []c07call, threads map[string]c07call, 
 			x.Go(nm, func(t *schedx.T) {
 				var err error
 				if c.Internal {
-					err = d.in.db.StoreInternal(x.Ctx, c07duty(c.Kind), c.set())
+					err = d.in.db.StoreInternal(x.Ctx, c.duty(), c.set())
 				} else {
-					err = d.in.db.StoreExternal(x.Ctx, c07duty(c.Kind), c.set())
+					err = d.in.db.StoreExternal(x.Ctx, c.duty(), c.set())
 				}
 				d.errs[nm], d.done[nm] = err, true
 				x.Obs("%s=%v", nm, err != nil)
@@ -837,6 +846,20 @@ func c07partB(e *schedx.Explorer) {
 		c07scenario("race-t2-of-3", 2, nil, map[string]c07call{"T1": intl(two(1, 1, 1)), "T2": two(2, 1, 1), "T3": two(3, 1, 1)}, 0, nil),
 		c07scenario("race-with-trim", 3, []c07call{two(1, 1, 1)}, map[string]c07call{"T2": two(2, 1, 1), "T3": two(3, 1, 1), "T4": two(4, 1, 1)}, 10*time.Second, []time.Duration{11 * time.Second}),
 	)
+	// never-expiring duties are capped per (share, validator, type): the 11th exit of share 1 evicts its oldest entry (the
+	// exit at slot 100, compacting that key's list in place) while another caller has just completed the threshold for
+	// that very key and is evaluating it outside the lock
+	{
+		ex := func(slot uint64, share int) c07call {
+			return c07call{Kind: c07Exit, Slot: slot, Entries: []c07entry{{"A", share, 1}}}
+		}
+		var pre []c07call
+		for k := uint64(0); k < 10; k++ {
+			pre = append(pre, ex(100+k, 1))
+		}
+		pre = append(pre, ex(100, 2))
+		scs = append(scs, c07scenario("exempt-eviction-races-threshold", 3, pre, map[string]c07call{"TA": ex(100, 3), "TB": ex(110, 1)}, 0, nil))
+	}
 	if schedx.Tier() == "thorough" {
 		scs = append(scs,
 			c07scenario("race-4-threads", 3, nil, map[string]c07call{"T1": intl(two(1, 1, 1)), "T2": two(2, 1, 1), "T3": two(3, 1, 2), "T4": two(4, 1, 1)}, 0, nil),
